@@ -20,7 +20,7 @@ func checkC08(r *Run) {
 	r.Rule("R4", "break/continue objects carry the output accumulated so far plus the inner object's value, and the block evaluator returns in that iteration", 3)
 	r.Rule("R5", "the parser's in-loop flag is saved on entry, set before anything that can parse a block, and restored by a defer on every exit; never reset to a constant", 2)
 	forLoopsRule(r)
-	blockExitRule(r, "R4")
+	coreBlockRules(r, "R4", "R4")
 	inLoopFlagRule(r, "R5")
 }
 
